@@ -47,7 +47,7 @@ def _symbols(e):
     key = e.get_id()
     hit = _SYMCACHE.get(key)
     if hit is not None:
-        return hit
+        return hit[1]
     out, seen, todo = set(), set(), [e]
     while todo:
         t = todo.pop()
@@ -63,8 +63,10 @@ def _symbols(e):
             todo.extend(t.children())
     if len(_SYMCACHE) > 200000:
         _SYMCACHE.clear()
-    _SYMCACHE[key] = frozenset(out)
-    return _SYMCACHE[key]
+    # the expression itself is kept in the cache entry: z3 re-uses AST ids of freed terms, a live reference prevents
+    # a later term from inheriting this entry
+    _SYMCACHE[key] = (e, frozenset(out))
+    return _SYMCACHE[key][1]
 
 
 class Ctx:
